@@ -43,19 +43,19 @@ def hex_config(rng, i, thorough):
     sizes = [63, 64, 127, 128] + ([255, 256] if (thorough or i % 9 == 0) else [])
     n = int(sizes[i % len(sizes)])
     shape = (n, n)
-    if i % 7 == 3:
+    if rng.integers(0, 6) == 0:
         shape = (n, n + int(rng.choice([-16, 17, 32])))
-    rings = int(1 + (i % 4)) if n >= 127 else int(1 + (i % 3))
-    rot = 90 if (i // 2) % 2 == 0 else 0
+    rings = int(rng.integers(1, 5)) if n >= 127 else int(rng.integers(1, 4))
+    rot = int(rng.choice([0, 90]))
     width = 2.0 * float(rng.choice([1.0, 0.37, 6.5]))          # physical width of the shorter array side
     dx = width / min(shape)
     span = (2 * rings + 1)
-    fill = float(rng.uniform(0.7, 0.98)) if i % 5 else float(rng.uniform(1.05, 1.4))   # >1: aperture overflows the array
+    fill = float(rng.uniform(0.7, 0.98)) if rng.integers(0, 5) else float(rng.uniform(1.05, 1.4))   # >1: overflows the array
     D = fill * width / span / (1.05 if rot == 90 else 1.0)
-    gap = 0.0 if i % 11 == 5 else float(D * rng.choice([0.01, 0.035, 0.1]))
+    gap = 0.0 if rng.integers(0, 8) == 0 else float(D * rng.choice([0.01, 0.035, 0.1]))
     D = D - gap
     nseg = 1 + 3 * rings * (rings + 1)
-    mode = i % 4
+    mode = int(rng.integers(0, 4))
     if mode == 0:
         excl = ()
     elif mode == 1:
@@ -115,6 +115,11 @@ def hex_predicates(cfg, x, y, ap):
                 if d > 10 * MARGIN * max(1.0, rho):
                     bad.append(f'gap 0: sample {[int(i), int(j)]} is in two segments and not on a shared edge')
                     break
+    # documented geometry: flat-to-flat diameter D, edge-to-nearest-edge separation gap => first-ring centres at D + gap
+    for sid, c in zip(ids, ap.all_centers):
+        if 1 <= sid <= 6 and abs(math.hypot(c[0], c[1]) - (cfg['D'] + cfg['gap'])) > 1e-9 * max(1.0, cfg['D']):
+            bad.append(f'segment {sid}: centre at distance {math.hypot(c[0], c[1]):.9g} from the origin, documented D + gap = {cfg["D"] + cfg["gap"]:.9g}')
+            break
     # area within the rasterisation of the boundary, for segments whose hexagon lies inside the array
     area = 3 * math.sqrt(3) / 2 * rho * rho
     perim = 6 * rho
@@ -313,7 +318,7 @@ def correspondence(ctx):
         jobs.append(('window', n, s, ic))
 
     # ---------------- hexagonal apertures
-    nhex = ctx.scale(36, 400)
+    nhex = ctx.scale(60, 500)
     hexes = []
     for i in range(nhex):
         cfg = hex_config(rng, i, ctx.thorough)
@@ -434,22 +439,27 @@ def correspondence(ctx):
 
     # ---------------- primitives (inequalities: sample for sample)
     prim_jobs = []
-    for i in range(ctx.scale(24, 240)):
+    for i in range(ctx.scale(60, 500)):
         n = int(rng.choice([31, 32, 48, 63]))
         shape = (n, n + (i % 3) - 1)
         x, y = co.make_xy_grid(shape, diameter=2)
         r, t = co.cart_to_polar(x, y)
         which = i % 5
+        onb = (i % 4 == 0)       # parameter equal to an exact sample coordinate: the boundary itself is sampled
         if which == 0:
-            rho = float(rng.uniform(0.1, 1.3))
+            rho = float(rng.uniform(0.1, 1.3)) if not onb else float(abs(x[0, int(rng.integers(0, x.shape[1]))]))
             prim_jobs.append(('circle', {'shape': list(shape), 'radius': rho}, ge.circle(rho, r), x, y))
             lines2.append(' '.join(['circle', C.f2w(rho), str(r.size)] + [C.f2w(v) for v in r.ravel()]))
         elif which == 1:
             rin, rout = sorted(rng.uniform(0.05, 1.3, 2))
+            if onb:
+                rin, rout = sorted([float(abs(x[0, int(rng.integers(0, x.shape[1]))])), float(abs(y[int(rng.integers(0, x.shape[0])), 0]))])
             prim_jobs.append(('annulus', {'shape': list(shape), 'rin': float(rin), 'rout': float(rout)}, ge.annulus(rin, rout, r), x, y))
             lines2.append(' '.join(['annulus', C.f2w(rin), C.f2w(rout), str(r.size)] + [C.f2w(v) for v in r.ravel()]))
         elif which == 2:
             w_, h_ = rng.uniform(0.1, 1.1, 2)
+            if onb:
+                w_, h_ = float(abs(x[0, int(rng.integers(0, x.shape[1]))])), float(abs(y[int(rng.integers(0, x.shape[0])), 0]))
             ang = [0, 90][i % 2]
             m = ge.rectangle(float(w_), x, y, height=float(h_), angle=ang)
             m = np.broadcast_to(m, x.shape)
@@ -517,7 +527,7 @@ def correspondence(ctx):
             ctx.pred_fail(kind, case, b)
 
     # ---------------- polygons (qhull) against the half-plane oracle; monotone; symmetric
-    for i in range(ctx.scale(30, 300)):
+    for i in range(ctx.scale(60, 600)):
         n = int(rng.choice([48, 63, 64]))
         x, y = co.make_xy_grid(n, diameter=2)
         sides = int(3 + i % 10)
@@ -530,7 +540,7 @@ def correspondence(ctx):
             ctx.pred_fail('regular_polygon', case, b)
 
     # ---------------- keystone apertures
-    for i in range(ctx.scale(9, 60)):
+    for i in range(ctx.scale(12, 90)):
         cfg = key_config(rng, i)
         ctx.case('keystone', cfg, tag=f'rings{cfg["rings"]}')
         try:
@@ -732,6 +742,11 @@ def search(ctx, hints):
         for s in range(0, 4):
             for ic in range(-n - 1, n + 2):
                 cands.append(('window', {'nx': n, 'ny': n + 3, 'sx': s, 'sy': s + 1, 'icx': ic, 'icy': -ic}))
+    for shape in ([16, 16],):
+        # make_xy_grid(16, diameter=2): dx = 0.125, so 0.5 and 0.25 are exact sample coordinates (boundary sampled)
+        cands.append(('circle', {'shape': shape, 'radius': 0.5}))
+        cands.append(('annulus', {'shape': shape, 'rin': 0.25, 'rout': 0.5}))
+        cands.append(('rect', {'shape': shape, 'width': 0.5, 'height': 0.25, 'angle': 0}))
     for shape in ([15, 15], [16, 16], [15, 16]):
         cands.append(('circle', {'shape': shape, 'radius': 0.6}))
         cands.append(('annulus', {'shape': shape, 'rin': 0.3, 'rout': 0.8}))
